@@ -211,6 +211,10 @@ def run(prog: Program, rep: Report, tier: str):
     from .bij import bijection_classes
     from .c02 import rule_deriv, rule_mask
     rule_deriv(prog, rep, bijection_classes(prog), R="C04.logdet", minimum=14)
+    # ... and for the block autoregressive network the chain-rule product of the block Jacobians, for every depth (the
+    # tests build depth 1 only; a product in the wrong order integrates to something other than one from depth 2 on)
+    from .bnaf import rule_bnaf_logdet
+    rule_bnaf_logdet(prog, rep, R="C04.bnaf-logdet")
     # structure that must hold for every parameter value, not only the initial one
     from .c09 import rule_bnaf_raw_masked
     rule_bnaf_raw_masked(prog, rep, "C04.bnaf-mask")
